@@ -110,6 +110,10 @@ func (fc *FuncCtx) updatePath(st *State, base Term, idx []int, v Term, n ast.Nod
 	f := stt.Field(idx[0])
 	cur, ok := fc.reg().fieldOf(base, f.Name())
 	if !ok {
+		// a write to a field of a library struct that no contract models is not recorded (reads of it are unknown)
+		if si := fc.reg().StructInfo(base.T); si != nil && si.Opaque {
+			return base
+		}
 		fc.fail(n, "field %s not modelled", f.Name())
 	}
 	nv := fc.updatePath(st, cur, idx[1:], v, n)
